@@ -173,7 +173,9 @@ def handle (op : String) (args : List String) (impl : String) : Option Verdict :
         let iw : World := ⟨(ipd.filter (·.2 = 1)).map (·.1), sids.zip ist⟩
         decide (P9a iw) && imx.all (·.2 ≤ 1) && ilk.all (·.2 = 0) &&
           -- a quiescent id must be reported (nothing can hide in an omitted entry)
-          (keys.all fun k => running iw k ≠ 0 || ilk.any (·.1 = k)) && keys.all (fun k => ipd.any (·.1 = k))
+          (keys.all fun k => running iw k ≠ 0 || ilk.any (·.1 = k)) && keys.all (fun k => ipd.any (·.1 = k)) &&
+          -- the maximum must be reported for every id as well
+          keys.all (fun k => imx.any (·.1 = k))
       | none => false
     let nR := (w.th.filter (·.2 = St.refused)).length
     let nD := (w.th.filter (·.2 = St.done)).length
@@ -243,6 +245,16 @@ def handle (op : String) (args : List String) (impl : String) : Option Verdict :
       | some [("live", l), ("streams", st), ("open", o)] => l == 0 && st == 0 && o == 0
       | _ => false
     return ⟨m, ok, "hammer"⟩
+  | "sigdrop", [_kind] => some <| Id.run do
+    -- a real signing has finished and is handing its result to a channel nobody reads any more; then the caller
+    -- cancels: the session ends like any session cancelled while its processes run
+    let (_, reps) := executeAll (Led.empty 0) [⟨"g", .part, 1, .cancelrun, true, none, []⟩]
+    let some rep := reps.head? | return bad
+    let m := s!"{showRet rep.ret},live={rep.live},pend={if rep.pend then 1 else 0}"
+    let ok := match impl.splitOn "," with
+      | [r, lv, pd] => (r == "ok" || r == "err") && lv == "live=0" && pd == "pend=0"
+      | _ => false
+    return ⟨m, ok, "sigdrop"⟩
   | "rerun", [_kind, n] => some <| Id.run do
     let some n := n.toNat? | return bad
     let r := rerun ⟨[], [], [], 0⟩ "a" n
